@@ -178,10 +178,12 @@ func runFiles(kind string, ninst int) {
 // ---------------------------------------------------------------------------------------------- locks
 
 type LockStep struct {
-	A    string `json:"a"` // request | acquire | release | abandon
+	A    string `json:"a"` // request | acquire | release | abandon | wait
 	I    int    `json:"i"`
 	N    string `json:"n"`
 	Busy bool   `json:"busy"`
+	CC   bool   `json:"cc"` // request: the context of the Lock call ends when the call returns (a per-call timeout with a deferred cancel)
+	Ms   int    `json:"ms"` // wait: the holders keep what they hold for that long
 }
 
 type LockBehaviour struct {
@@ -240,11 +242,16 @@ func runLock(kind string, b LockBehaviour) *LockResult {
 		case "request":
 			done := make(chan struct{})
 			pending[key(s.I, s.N)] = done
-			go func(i int, n string) {
-				err := st[i-1].Lock(ctx, n)
+			go func(i int, n string, cc bool) {
+				cctx, cancel := context.WithCancel(ctx)
+				err := st[i-1].Lock(cctx, n)
 				add(Event{I: i, N: n, Kind: "got", T: us(time.Now()), Err: errClass(err)})
+				if cc {
+					cancel()
+				}
 				close(done)
-			}(s.I, s.N)
+				_ = cancel // otherwise the call's context lives as long as the process
+			}(s.I, s.N, s.CC)
 			if s.Busy {
 				// somebody holds it: give the call more than one poll interval (LeaseTTL/2) to try, and a wrong
 				// implementation time to succeed
@@ -270,6 +277,8 @@ func runLock(kind string, b LockBehaviour) *LockResult {
 			case <-time.After(2*ttl + 3*time.Second):
 				res.Issues = append(res.Issues, fmt.Sprintf("step %d: Lock(%d,%s) did not return", si, s.I, s.N))
 			}
+		case "wait":
+			time.Sleep(time.Duration(s.Ms) * time.Millisecond)
 		case "release":
 			t := time.Now()
 			err := st[s.I-1].Unlock(ctx, s.N)
